@@ -140,9 +140,9 @@ func (b *c23LB) state0() connectivity.State {
 	return b.st0
 }
 
-func (b *c23LB) ResolverError(error)                                          {}
+func (b *c23LB) ResolverError(error)                                        {}
 func (b *c23LB) UpdateSubConnState(balancer.SubConn, balancer.SubConnState) {}
-func (b *c23LB) ExitIdle()                                                    {}
+func (b *c23LB) ExitIdle()                                                  {}
 func (b *c23LB) Close() {
 	b.mu.Lock()
 	b.closed = true
